@@ -407,3 +407,40 @@ async def ping_and_refresh_loops_run_from_the_first_request_of_a_handshake():
     ensures("refresh-loop-already-running", "SPA:Refresh loop" in Hs.tasks_at_first_request)
     ensures("failed-handshake-keeps-its-watchdog", both(not spa.is_connected,
                                                        len([t for t in c10_leaks.Net.tasks if t.name == "SPA:Ping loop" and not t.cancelled]) == 1))
+
+
+# ------------------------------------------------- an RF-error storm is reported, the watchdog stays
+class RfHandler:
+    def __init__(self, n):
+        self.total_error_count = n
+
+
+class RfSeen:
+    events = []
+
+
+async def rf_events(event, **kwargs):
+    RfSeen.events.append(event)
+
+
+@harness(prop="C09", target="geckolib.async_spa:GeckoAsyncSpa._async_on_rferr", name="rf_error_storm_is_reported_and_the_ping_loop_survives")
+async def rf_error_storm_is_reported_and_the_ping_loop_survives(n: int):
+    """any number of RF errors seen on a connection: each is reported, the halt is reported once the count passes the limit, and
+    the connection itself -- endpoint, ping loop -- is left alone: only an answered ping can lead out of the error state"""
+    from geckolib.const import GeckoConstants
+    requires(0 <= n)
+    c10_leaks.arm(-1)
+    tm = AsyncTasks()
+    tm.add_task(None, "Ping loop", "SPA")
+    spa = make_spa(True, None)
+    spa._taskman = tm
+    spa._transport = c10_leaks.Transport()
+    spa._event_handler = rf_events
+    RfSeen.events = []
+    await spa._async_on_rferr(RfHandler(n), ("10.0.0.9", 10022))
+    too_many = n > GeckoConstants.MAX_RF_ERRORS_BEFORE_HALT
+    ensures("error-reported-and-halt-reported-past-the-limit",
+            RfSeen.events == ([E.ERROR_RF_ERROR, E.ERROR_TOO_MANY_RF_ERRORS] if too_many else [E.ERROR_RF_ERROR]))
+    ensures("connection-left-alone", both(spa.is_connected, spa._protocol is not None, not spa._transport.closed))
+    ensures("ping-loop-not-cancelled", not c10_leaks.Net.tasks[0].cancelled)
+    cover("past-the-limit", too_many)
